@@ -435,6 +435,8 @@ def check(run, fx, rule):
             raise AnalysisBroken('%s: the tag parameter is never used' % q)
         for e, st in uses:
             inst = '%s(%s) -> %s' % (q, pname, e.get('fq', e['k']))
+            if 'operator<<' in (e.get('fq') or ''):
+                continue                    # written to the json trace of a tracing build: a record of the request, not a lookup
             if st:
                 run.held(rule, inst, fn.loc(e), 'use dominated by %s = <normaliser>(%s)' % (pname, pname))
             else:
